@@ -370,6 +370,7 @@ class AgentSchedulingComponent(rpu.AgentComponent):
             with self._raptor_lock:
 
                 self._raptor_queues[name] = ru.zmq.Putter(queue, addr)
+                self._raptor_gone.discard(name)
 
                 # send tasks which were collected for this queue
                 if name in self._raptor_tasks:
@@ -402,6 +403,9 @@ class AgentSchedulingComponent(rpu.AgentComponent):
 
                 else:
                     del self._raptor_queues[name]
+
+                # tasks which arrive for this raptor from now on are failed
+                self._raptor_gone.add(name)
 
                 if name in self._raptor_tasks:
                     tasks = self._raptor_tasks[name]
@@ -713,6 +717,7 @@ class AgentSchedulingComponent(rpu.AgentComponent):
         # keep a backlog of raptor tasks until their queues are registered
         self._raptor_queues = dict()           # raptor_master_id : zmq.Queue
         self._raptor_tasks  = dict()           # raptor_master_id : [task]
+        self._raptor_gone   = set()            # unregistered raptor masters
         self._raptor_lock   = mt.Lock()        # lock for the above
 
         # register task output channels
@@ -944,32 +949,41 @@ class AgentSchedulingComponent(rpu.AgentComponent):
 
                 for name in to_raptor:
 
+                    tasks = to_raptor[name]
+
                     if name in self._raptor_queues:
                         # forward to specified raptor queue
                         self._log.debug('fwd %s: %d', name,
-                                        len(to_raptor[name]))
-                        self._raptor_queues[name].put(to_raptor[name])
+                                        len(tasks))
+                        self._raptor_queues[name].put(tasks)
 
                     elif self._raptor_queues and name == '*':
                         # round robin to available raptor queues
                         names   = list(self._raptor_queues.keys())
                         n_names = len(names)
-                        for idx in range(len(to_raptor[name])):
-                            task  = to_raptor[name][idx]
+                        for idx in range(len(tasks)):
+                            task  = tasks[idx]
                             qname = names[idx % n_names]
                             self._log.debug('* put task %s to rq %s',
                                     task['uid'], qname)
                             self._raptor_queues[qname].put(task)
 
+                    elif name in self._raptor_gone:
+                        # that raptor master unregistered: nobody will ever
+                        # pick these tasks up
+                        for task in tasks:
+                            self._fail_task(task, RuntimeError('raptor gone'),
+                                                  'raptor queue disappeared')
+
                     else:
                         # keep around until a raptor queue registers
                         self._log.debug('cache %s: %d', name,
-                                        len(to_raptor[name]))
+                                        len(tasks))
 
                         if name not in self._raptor_tasks:
-                            self._raptor_tasks[name] = to_raptor[name]
+                            self._raptor_tasks[name] = tasks
                         else:
-                            self._raptor_tasks[name] += to_raptor[name]
+                            self._raptor_tasks[name] += tasks
 
         if not to_schedule:
             # no resource change, no activity
